@@ -185,12 +185,21 @@ impl Prop for C02 {
         };
         r.start = if base == 0 && rng.chance(1, 4) { None } else { Some(s) };
         r.end = e;
+        // long chains: half of the time a narrow window (index trimming keeps a small fraction)
+        if long && rng.coin() {
+            r.start = Some(s.max(1));
+            r.end = Some(s.max(1) + rng.range(1, 9));
+        }
         // the CLI accepts only start < end
         if let Some(e) = r.end {
             let eff = r.start.unwrap_or(0);
             if e <= eff {
                 r.end = Some(eff + 1);
             }
+        }
+        // marker chains are consistent: --verify may be combined with any range that starts above 0
+        if r.start.map(|s| s >= base + 1).unwrap_or(false) && rng.chance(1, 3) {
+            r.verify = true;
         }
         scn.runs = vec![r];
         h.check(&mut scn)?;
